@@ -209,4 +209,13 @@ theorem closed_flag_in_source :
     Exits.putRefusesWhenClosedUnderLock = true ∧ Exits.closeAllSetsClosedUnderLock = true ∧
     Exits.establishReturnsWhenPutRefuses = true ∧ Exits.shapeOk = true := by decide
 
+/-- Regenerated from rpc.go: the retry loop of `lookupRegion` looks at `c.done` at the top of every
+iteration (fix 20b6aaa).  The lookups for hbase:meta and the master go to ZooKeeper, which knows
+nothing about the client being closed, and the loop's own context is the region's: without this
+look a failing ZooKeeper kept the establisher of hbase:meta — its goroutine and its lookups — alive
+for ever after `Close` (observed as `activity-after-close-first-call-zk-down`). -/
+theorem lookup_loop_watches_done_in_source :
+    (GV.Gen.Selects.selects.filter (fun s => s.fn == "client.lookupRegion")).map (·.cases)
+      = [["default", "recv:c.done"]] := by decide
+
 end GV.ConnCache
